@@ -174,8 +174,68 @@ def _fns():
                               ConvexPolygon.__init__, ConvexPolygon._reorder_verts])
 
 
+def _tabulated_ob(famname):
+    """Finite domain: every tabulated solid (index enumerated by z3) through the real constructor, natively; the
+    combinatorial structure is compared with an independent float reference (harness/floathull.py): faces = hull facets,
+    counter-clockwise from outside, neighbours = faces sharing an edge (symmetric), edges = face edges once each with i < j,
+    Euler's formula.  Reaches 120 vertices / 92 faces / faces of degree 10 (the symbolic obligations stop at 12 vertices)."""
+    def run():
+        import numpy as rnp
+        import coxeter.families as Fm
+        from coxeter.shapes import ConvexPolyhedron
+        from . import floathull
+
+        fam = Fm.DOI_SHAPE_REPOSITORIES["10.1126/science.1220869"][0] if famname == "science1220869" else getattr(Fm, famname)
+        names = list(fam.names)
+        R = rnp.array(O.rot_from_quat(F(2, 7), F(3, 7), F(-6, 7), F(0)), dtype=float)
+
+        def fn(i):
+            base = rnp.asarray(fam.get_shape(names[i]).vertices, dtype=float)
+            rng = rnp.random.default_rng(7000 + i)
+            V = base[rng.permutation(len(base))] @ R.T + rnp.array([-1.5, 2.25, 0.75])
+            ref = floathull.facets(V)
+            p = ConvexPolyhedron(V.copy())
+            bad = []
+            want = {tuple(sorted(idx)): (idx, nrm) for idx, nrm in ref}
+            got = [[int(x) for x in f] for f in p.faces]
+            if sorted(tuple(sorted(f)) for f in got) != sorted(want):
+                return False, "%s: faces are not the hull facets (%d vs %d)" % (names[i], len(got), len(want))
+            for fi, f in enumerate(got):
+                idx, nrm = want[tuple(sorted(f))]
+                k = idx.index(f[0])
+                if idx[k:] + idx[:k] != f:
+                    bad.append("face %d not counter-clockwise from outside" % fi)
+                    break
+                eq = p.equations[fi]
+                if abs(float(rnp.dot(eq[:3], nrm)) - 1) > 1e-9 or abs(float(rnp.dot(eq[:3], V[f[0]]) + eq[3])) > 1e-9:
+                    bad.append("equation %d is not the unit outward normal of its face" % fi)
+                    break
+            def fedges(f):
+                return {(min(a, b), max(a, b)) for a, b in zip(f, f[1:] + f[:1])}
+            E = [fedges(f) for f in got]
+            alle = set().union(*E)
+            nb_want = [sorted(j for j in range(len(got)) if j != i2 and E[i2] & E[j]) for i2 in range(len(got))]
+            nb_got = [sorted(int(x) for x in ns) for ns in p.neighbors]
+            if nb_got != nb_want:
+                bad.append("neighbours differ from the faces sharing an edge (first difference at face %d)" % next(k for k in range(len(got)) if nb_got[k] != nb_want[k]))
+            ed = [(int(a), int(b)) for a, b in p.edges]
+            if sorted(ed) != sorted(alle) or len(ed) != len(set(ed)) or any(a >= b for a, b in ed) or int(p.num_edges) != len(alle):
+                bad.append("edge list differs from the face edges (%d vs %d)" % (len(ed), len(alle)))
+            if len(V) - len(alle) + len(got) != 2:
+                bad.append("V - E + F != 2")
+            return (not bad), ("%s: %s" % (names[i], "; ".join(bad[:3])) if bad else "")
+
+        return common.run_z3_enum("C07/tabulated." + famname, 0, len(names), fn, describe=lambda i: names[i],
+                                  bounds="all %d entries of %s (up to 120 vertices), vertices permuted, rotated, off-origin; real constructor on float64 vs an independent brute-force facet enumeration" % (len(names), famname),
+                                  functions=["coxeter.shapes.ConvexPolyhedron.__init__ / faces / equations / neighbors / edges / num_edges"])
+
+    return ("C07/tabulated." + famname, run)
+
+
 def obligations(tier, seed):
     obs = []
+    for famname in ("PlatonicFamily", "ArchimedeanFamily", "CatalanFamily", "PrismAntiprismFamily", "PyramidDipyramidFamily", "JohnsonFamily", "science1220869"):
+        obs.append(_tabulated_ob(famname))
     first = dict(s=F(3, 2), tx=F(7, 3), ty=F(-5, 2), tz=F(11, 4))
     mp = 2 if tier == "quick" else 8
 
